@@ -480,6 +480,30 @@ fn out_coq(o: &Out) -> String {
     }
 }
 
+/// an operation of a deterministic boundary script; amounts may refer to the state at run time
+#[derive(Clone, Debug)]
+enum SOp {
+    Lit(Op),
+    /// redeem supply * num / den + delta attos (of the account's units = the whole supply)
+    RedeemFrac(u64, u64, i64),
+    /// get_redemption_value(supply * num / den + delta attos)
+    GetFrac(u64, u64, i64),
+    /// protected_withdraw(resource, reserve * num / den + delta attos, strategy)
+    WithdrawFrac(usize, u64, u64, i64, u8),
+    /// contribute reserve_i * num_i / den_i + delta_i attos per resource
+    ContributeRel(Vec<(u64, u64, i64)>),
+}
+fn resolve(sop: &SOp, st: &Snapshot) -> Op {
+    let frac = |b: &BigInt, n: u64, d: u64, delta: i64| b * BigInt::from(n) / BigInt::from(d) + BigInt::from(delta);
+    match sop {
+        SOp::Lit(o) => o.clone(),
+        SOp::RedeemFrac(n, d, delta) => Op::Redeem(frac(&st.s, *n, *d, *delta)),
+        SOp::GetFrac(n, d, delta) => Op::GetRedemption(frac(&st.s, *n, *d, *delta)),
+        SOp::WithdrawFrac(i, n, d, delta, strat) => Op::Withdraw(*i, frac(&st.r[*i], *n, *d, *delta), *strat),
+        SOp::ContributeRel(v) => Op::Contribute(v.iter().enumerate().map(|(i, (n, d, delta))| frac(&st.r[i], *n, *d, *delta)).collect()),
+    }
+}
+
 struct CaseResult {
     index: usize,
     coq: String,
@@ -490,7 +514,7 @@ struct CaseResult {
     sample: serde_json::Value,
 }
 
-fn run_case(w: &mut World, root: &Rng, index: usize, thorough: bool, script: Option<(Kind, Vec<u8>, Vec<Op>)>) -> CaseResult {
+fn run_case(w: &mut World, root: &Rng, index: usize, thorough: bool, script: Option<(&'static str, Kind, Vec<u8>, Vec<SOp>)>) -> CaseResult {
     let mut rng = root.fork(index as u64);
     let kind = match rng.below(10) {
         0 | 1 | 2 => Kind::One,
@@ -506,12 +530,13 @@ fn run_case(w: &mut World, root: &Rng, index: usize, thorough: bool, script: Opt
         .map(|_| if rng.chance(1, 8) { *rng.pick(&[1u8, 6, 9, 17]) } else { *rng.pick(&[0u8, 2, 18]) })
         .collect();
     let (kind, n, mut divs) = match &script {
-        Some((k, d, _)) => (*k, d.len(), d.clone()),
+        Some((_, k, d, _)) => (*k, d.len(), d.clone()),
         None => (kind, n, divs.clone()),
     };
     let _ = n;
-    let mut scripted: std::collections::VecDeque<Op> = script.map(|(_, _, ops)| ops.into()).unwrap_or_default();
-    let is_scripted = !scripted.is_empty();
+    let script_name: Option<&'static str> = script.as_ref().map(|x| x.0);
+    let mut scripted: std::collections::VecDeque<SOp> = script.map(|(_, _, _, ops)| ops.into()).unwrap_or_default();
+    let is_scripted = script_name.is_some();
     let mut used: BTreeMap<u8, usize> = BTreeMap::new();
     let mut res: Vec<ResourceAddress> = divs
         .iter()
@@ -521,6 +546,20 @@ fn run_case(w: &mut World, root: &Rng, index: usize, thorough: bool, script: Opt
             w.resource(*d, k)
         })
         .collect();
+    if kind == Kind::Two && is_scripted && res[0] < res[1] {
+        // scripts fix which divisibility the blueprint's "resource 1" (greater address) has: look for
+        // (or create) a resource of divisibility divs[0] whose address is greater than res[1]
+        let mut k = 0;
+        loop {
+            let cand = w.resource(divs[0], k);
+            if cand != res[1] && cand > res[1] {
+                res[0] = cand;
+                break;
+            }
+            k += 1;
+            assert!(k < 64, "no resource with a greater address found");
+        }
+    }
     if kind == Kind::Two && res[0] < res[1] {
         // the blueprint calls the resource with the greater address "1": report it first
         res.swap(0, 1);
@@ -532,17 +571,30 @@ fn run_case(w: &mut World, root: &Rng, index: usize, thorough: bool, script: Opt
     let mut steps: Vec<(Op, Out, Snapshot)> = Vec::new();
     let mut failures = Vec::new();
     let mut counts: BTreeMap<String, u64> = BTreeMap::new();
-    let mut cnt = |k: &str| *counts.entry(k.to_string()).or_insert(0) += 1;
+    let mut cnt = |k: &str| {
+        *counts.entry(k.to_string()).or_insert(0) += 1;
+        if is_scripted {
+            // the deterministic boundary family has its own counters (floors are put on these)
+            *counts.entry(format!("bnd_{}", k)).or_insert(0) += 1;
+        }
+    };
+    if let Some(name) = script_name {
+        cnt(&format!("script_{}", name));
+    }
     let mut st = snapshot(w, &p);
     let mut pending: Option<Op> = None;
     let mut i = 0;
     let mut ok_contrib_ratio = false;
     let mut ok_redeem = false;
-    while i < len || pending.is_some() {
+    while (if is_scripted { !scripted.is_empty() } else { i < len }) || pending.is_some() {
         let forced = pending.is_some();
         let op = match pending.take() {
             Some(o) => o,
-            None if is_scripted => scripted.pop_front().expect("scripted op"),
+            None if is_scripted => match resolve(&scripted.pop_front().expect("scripted op"), &st) {
+                // bucket amounts are multiples of the resource's step
+                Op::Contribute(cs) => Op::Contribute(cs.iter().enumerate().map(|(j, c)| floor_to(c, &step_of(p.divs[j]))).collect()),
+                o => o,
+            },
             None => {
                 let first = i == 0 && rng.chance(4, 5);
                 gen_op(&mut rng, &p, &st, first)
@@ -566,6 +618,14 @@ fn run_case(w: &mut World, root: &Rng, index: usize, thorough: bool, script: Opt
                 cnt("contribute_ok");
                 if st.s.is_positive() {
                     cnt("contribute_ok_existing_pool");
+                    if st.r.iter().any(|r| r.is_zero()) {
+                        cnt("contribute_ok_with_a_zero_reserve");
+                    }
+                    for j in 0..cs.len() {
+                        if p.divs[j] < 18 && taken[j] < cs[j] {
+                            cnt(&format!("change_returned_at_divisibility_{}", p.divs[j]));
+                        }
+                    }
                     ok_contrib_ratio = true;
                 } else {
                     cnt("contribute_ok_new_pool");
@@ -634,6 +694,14 @@ fn run_case(w: &mut World, root: &Rng, index: usize, thorough: bool, script: Opt
             (Op::GetRedemption(u), Out::Value(owed)) | (Op::Redeem(u), Out::Redeem(owed)) => {
                 let is_redeem = matches!(op, Op::Redeem(_));
                 cnt(if is_redeem { "redeem_ok" } else { "get_redemption_ok" });
+                if u == &st.s {
+                    cnt(if is_redeem { "redeem_of_entire_supply" } else { "get_redemption_of_entire_supply" });
+                }
+                for j in 0..owed.len() {
+                    if p.divs[j] < 18 && st.s.is_positive() && owed[j] < u * &st.r[j] / &st.s {
+                        cnt(&format!("owed_rounded_down_at_divisibility_{}", p.divs[j]));
+                    }
+                }
                 if is_redeem {
                     ok_redeem = true;
                     if &(&st.s - &after.s) != u {
@@ -694,8 +762,14 @@ fn run_case(w: &mut World, root: &Rng, index: usize, thorough: bool, script: Opt
                     fail("deposit amount differs from reserve change".into());
                 }
             }
-            (Op::Withdraw(i2, _, _), Out::Withdraw(t)) => {
+            (Op::Withdraw(i2, a, strat), Out::Withdraw(t)) => {
                 cnt("withdraw_ok");
+                if t != a {
+                    cnt(if *strat == 1 { "withdraw_rounded_down" } else { "withdraw_rounded_up" });
+                }
+                if t == &st.r[*i2] {
+                    cnt("withdraw_of_entire_reserve");
+                }
                 if &(&st.r[*i2] - &after.r[*i2]) != t {
                     fail("withdrawn amount differs from reserve change".into());
                 }
@@ -739,6 +813,90 @@ fn run_case(w: &mut World, root: &Rng, index: usize, thorough: bool, script: Opt
     }
 }
 
+/// The deterministic boundary family: every branch of contribute / redeem / get_redemption_value /
+/// protected_withdraw of the three blueprints, both sides of and exactly at each comparison.
+fn boundary_scripts() -> Vec<(&'static str, Kind, Vec<u8>, Vec<SOp>)> {
+    use SOp::*;
+    let e18 = |k: u64| BigInt::from(k) * pow10(18);
+    let at = |k: i64| BigInt::from(k);
+    let c = |v: Vec<BigInt>| Lit(Op::Contribute(v));
+    let dep = |i: usize, a: BigInt| Lit(Op::Deposit(i, a));
+    let get = |a: BigInt| Lit(Op::GetRedemption(a));
+    let mm = max_mint();
+    let big_x = BigInt::from_str("43640360518335793289675144805308907827152616").unwrap();
+    vec![
+        // one-resource pool, divisibility 18: the four (units, reserves) states, empty bucket, zero
+        // units minted, redemption of the entire supply and of all but one atto, quotes at 0 / <0 / S / S+1
+        ("one_states_18", Kind::One, vec![18], vec![
+            c(vec![at(0)]), c(vec![e18(100)]), get(at(0)), get(at(-1)), GetFrac(1, 1, 0), GetFrac(1, 1, 1), GetFrac(1, 1, -1),
+            RedeemFrac(1, 1, -1), c(vec![e18(7)]), RedeemFrac(1, 3, 0), RedeemFrac(1, 1, 0),
+            dep(0, e18(5)), c(vec![e18(1)]), WithdrawFrac(0, 1, 1, 0, 0), c(vec![e18(1)]), RedeemFrac(1, 2, 0),
+            dep(0, mm.clone()), c(vec![at(1)]), c(vec![e18(1)]), RedeemFrac(1, 1, 0),
+        ]),
+        // overflow of contribution / reserves, and the mint limit at 2^152 - 1 / 2^152 / 2^152 + 1 attos
+        ("one_overflow_and_mint_limit", Kind::One, vec![18], vec![
+            c(vec![&mm + at(1)]), c(vec![mm.clone()]), RedeemFrac(1, 1, 0), c(vec![&mm - at(1)]), RedeemFrac(1, 1, 0),
+            c(vec![at(1)]), c(vec![mm.clone()]), c(vec![at(1)]), RedeemFrac(1, 1, 0),
+        ]),
+        // divisibility 2: rounding of owed amounts and of withdrawals, zero owed, withdraw at balance / balance + step / negative / 0
+        ("one_rounding_2", Kind::One, vec![2], vec![
+            c(vec![e18(100)]), dep(0, pow10(16)), RedeemFrac(1, 3, 0), GetFrac(1, 7, 0), Lit(Op::Redeem(at(1))), Lit(Op::Redeem(pow10(14))),
+            WithdrawFrac(0, 1, 3, 1, 0), WithdrawFrac(0, 1, 3, 1, 1), WithdrawFrac(0, 1, 3, 1, 2), Lit(Op::Withdraw(0, at(0), 0)), Lit(Op::Withdraw(0, -pow10(16), 0)),
+            Lit(Op::Withdraw(0, at(1), 2)), Lit(Op::Withdraw(0, at(1), 1)),
+            WithdrawFrac(0, 1, 1, 10_000_000_000_000_000, 0), WithdrawFrac(0, 1, 1, 1, 2), WithdrawFrac(0, 1, 1, 0, 0), RedeemFrac(1, 2, 0),
+        ]),
+        ("one_rounding_0", Kind::One, vec![0], vec![
+            c(vec![e18(10)]), dep(0, e18(1)), RedeemFrac(1, 4, 0), GetFrac(1, 3, 0), Lit(Op::Redeem(pow10(17))), RedeemFrac(1, 1, -1), RedeemFrac(1, 1, 0),
+        ]),
+        // two-resource pool without units: both empty, one empty (either side), both present (square roots, rounding up)
+        ("two_new_pool", Kind::Two, vec![18, 2], vec![
+            c(vec![at(0), at(0)]), c(vec![e18(4), at(0)]), RedeemFrac(1, 1, 0), c(vec![at(0), e18(9)]), RedeemFrac(1, 1, 0),
+            c(vec![e18(4), e18(9)]), RedeemFrac(1, 1, 0), c(vec![e18(2), e18(3)]), GetFrac(1, 1, 0), RedeemFrac(1, 2, 0), RedeemFrac(1, 1, 0),
+            dep(1, e18(1)), c(vec![e18(2), e18(3)]), RedeemFrac(1, 1, 0),
+        ]),
+        // two-resource pool with units: reserve 1 empty, both empty, reserve 2 empty, normal operation with the exact
+        // ratio (both candidates, tie), resource 1 limiting (first candidate only), resource 2 limiting (second only)
+        ("two_reserve_states", Kind::Two, vec![18, 18], vec![
+            c(vec![e18(100), e18(200)]), WithdrawFrac(0, 1, 1, 0, 0), c(vec![e18(5), e18(10)]), c(vec![e18(5), at(0)]), WithdrawFrac(1, 1, 1, 0, 0),
+            c(vec![e18(5), e18(10)]), RedeemFrac(1, 10, 0), dep(0, e18(50)), c(vec![e18(5), e18(10)]), c(vec![at(0), e18(10)]), dep(1, e18(100)),
+            ContributeRel(vec![(1, 10, 0), (1, 10, 0)]), ContributeRel(vec![(1, 100, 0), (1, 1, 0)]), ContributeRel(vec![(1, 1, 0), (1, 100, 0)]),
+            ContributeRel(vec![(1, 3, 0), (1, 3, 1)]), ContributeRel(vec![(1, 3, 1), (1, 3, 0)]), c(vec![at(1), at(1)]), RedeemFrac(1, 1, 0),
+        ]),
+        // the tie between the two candidates at 36 digits with different amounts (second one is kept)
+        ("two_tie_with_excess", Kind::Two, vec![0, 18], vec![
+            c(vec![e18(4), big_x.clone()]), c(vec![e18(6), &big_x * at(3) / at(2) + at(1)]), c(vec![e18(6), &big_x * at(3) / at(2)]), RedeemFrac(1, 1, 0),
+        ]),
+        // divisibility 0 on both sides: amounts rounded to whole tokens, contribution rounded to zero
+        ("two_rounding_0", Kind::Two, vec![0, 0], vec![
+            c(vec![e18(10), e18(30)]), c(vec![e18(1), e18(1)]), c(vec![e18(2), e18(7)]), c(vec![e18(1), e18(3)]), c(vec![e18(3), e18(8)]),
+            RedeemFrac(1, 7, 0), GetFrac(1, 3, 0), RedeemFrac(1, 1, 0),
+        ]),
+        // multi-resource pool without units: 0, 1, 2, 3 non-zero contributions (empty product, n-th roots)
+        ("multi_new_pool", Kind::Multi, vec![18, 2, 0], vec![
+            c(vec![at(0), at(0), at(0)]), c(vec![e18(1), e18(1), e18(1)]), RedeemFrac(1, 1, 0),
+            c(vec![e18(8), at(0), at(0)]), RedeemFrac(1, 1, 0), c(vec![e18(4), e18(9), at(0)]), RedeemFrac(1, 1, 0),
+            c(vec![e18(2), e18(4), e18(8)]), GetFrac(1, 1, 0), RedeemFrac(1, 1, 0), c(vec![e18(2), e18(3), e18(5)]), RedeemFrac(1, 1, 0),
+        ]),
+        // multi-resource pool with units: exact ratio (all ratios tie), first / last resource limiting, a zero
+        // contribution for a resource with reserves, one reserve empty (its bucket comes back), all reserves empty
+        ("multi_ratios", Kind::Multi, vec![18, 2, 0], vec![
+            c(vec![e18(100), e18(200), e18(300)]), ContributeRel(vec![(1, 10, 0), (1, 10, 0), (1, 10, 0)]),
+            ContributeRel(vec![(1, 20, 0), (1, 1, 0), (1, 1, 0)]), ContributeRel(vec![(1, 1, 0), (1, 1, 0), (1, 100, 0)]),
+            ContributeRel(vec![(1, 10, 0), (0, 1, 0), (1, 10, 0)]), ContributeRel(vec![(1, 10, 1), (1, 10, 0), (1, 10, 0)]),
+            RedeemFrac(1, 7, 0), GetFrac(1, 3, 0),
+            WithdrawFrac(1, 1, 1, 0, 0), c(vec![e18(10), e18(20), e18(30)]), WithdrawFrac(0, 1, 1, 0, 0), WithdrawFrac(2, 1, 1, 0, 0),
+            c(vec![e18(10), e18(20), e18(30)]), RedeemFrac(1, 2, 0), dep(2, e18(5)), c(vec![e18(10), e18(20), e18(30)]), RedeemFrac(1, 1, 0),
+        ]),
+        // a ratio whose computation overflows is skipped; single-resource multi pool
+        ("multi_overflowing_ratio", Kind::Multi, vec![18, 18], vec![
+            c(vec![at(1), e18(100)]), c(vec![mm.clone(), e18(1)]), c(vec![at(1), e18(100)]), RedeemFrac(1, 1, 0),
+        ]),
+        ("multi_single_resource", Kind::Multi, vec![2], vec![
+            c(vec![at(0)]), RedeemFrac(1, 1, 0), c(vec![e18(3)]), c(vec![e18(1)]), RedeemFrac(1, 3, 0), RedeemFrac(1, 1, 0),
+        ]),
+    ]
+}
+
 fn main() {
     let args = Args::parse();
     let mut report = Report::new(
@@ -767,19 +925,10 @@ fn main() {
                         i += threads;
                     }
                     if t == 0 {
-                        // scripted history replayed on every run: an empty contribution to a new
-                        // multi-resource pool mints 1.0 pool unit; the pool then has units but no
-                        // reserves and rejects contributions until the manager deposits
-                        let e18 = |k: u64| BigInt::from(k) * pow10(18);
-                        let ops = vec![
-                            Op::Contribute(vec![BigInt::zero(), BigInt::zero()]),
-                            Op::Contribute(vec![e18(5), e18(3)]),
-                            Op::Redeem(e18(1) / BigInt::from(2u32)),
-                            Op::Deposit(0, e18(10)),
-                            Op::Contribute(vec![e18(5), e18(3)]),
-                            Op::Redeem(e18(1) / BigInt::from(2u32)),
-                        ];
-                        v.push(run_case(&mut w, &root, cases, thorough, Some((Kind::Multi, vec![18, 2], ops))));
+                        // deterministic boundary family, identical for every seed
+                        for (k, sc) in boundary_scripts().into_iter().enumerate() {
+                            v.push(run_case(&mut w, &root, cases + k, thorough, Some(sc)));
+                        }
                     }
                     v
                 })
@@ -808,6 +957,20 @@ fn main() {
     report.floor("owed_strictly_between_0_and_reserve", c / 4);
     report.floor("contribute_with_change", c / 8);
     report.floor("empty_contribution_minted_pool_units", 1);
+    for name in boundary_scripts().iter().map(|x| x.0) {
+        report.floor(&format!("bnd_script_{}", name), 1);
+    }
+    for k in [
+        "err_EEmptyBucket", "err_EDecOverflow", "err_EZeroMinted", "err_ERedeemedZero", "err_ESupplyNoReserves", "err_ELargerContribution",
+        "err_ENoMinRatio", "err_EInvalidRedemption", "err_EMaxMint", "err_EVault",
+        "contribute_ok_new_pool", "contribute_ok_existing_pool", "contribute_ok_with_a_zero_reserve", "contribute_with_change",
+        "unowned_reserves_claimed_by_first_contributor", "ratio_exceeded_within_36_digit_precision", "empty_contribution_minted_pool_units",
+        "redeem_of_entire_supply", "get_redemption_of_entire_supply", "owed_rounded_down_at_divisibility_2", "owed_rounded_down_at_divisibility_0",
+        "change_returned_at_divisibility_2", "change_returned_at_divisibility_0", "round_trips_with_rounding_loss",
+        "withdraw_rounded_down", "withdraw_rounded_up", "withdraw_of_entire_reserve", "deposit_ok",
+    ] {
+        report.floor(&format!("bnd_{}", k), 1);
+    }
     cw.write(&args.out, args.shards).unwrap();
     report.write(&args.out).unwrap();
 }
